@@ -2,6 +2,7 @@ import NeumannModel.Common.Proto
 import NeumannModel.Rel.Model
 import NeumannModel.Rel.VecModel
 import NeumannModel.Rel.Bucket
+import NeumannModel.Rel.ParModel
 /-
   Line-protocol driver for the relational model (C04).  One table at a time.
 
@@ -310,7 +311,9 @@ def relStep (t : Table) (line : String) : Table × String :=
       | some i, some c =>
         let cc := match countColumn t i c with | .ok n => s!"ok {n}" | .error e => "err " ++ showErr e
         let sv := fun (o : Option Value) => match o with | some v => showVal v | none => "none"
-        (t, s!"countcol={cc} terms={showVals (aggSumTerms t i c)} min={sv (aggMin t i c)} max={sv (aggMax t i c)}")
+        -- min / max through both branches: from 1000 selected rows on the rayon reduction, halved 5 levels deep
+        let sp := halving (selectRows t c).length 5
+        (t, s!"countcol={cc} terms={showVals (aggSumTerms t i c)} min={sv (aggMinPar sp t i c)} max={sv (aggMaxPar sp t i c)}")
       | _, _ => bad
   | "q" :: "countcol" :: col :: crest => match parseAggCol col, parseWholeCond crest with
       | some i, some c => (match countColumn t i c with
